@@ -29,6 +29,7 @@ func runC14(c *core.Ctx) {
 	c.Rule("R5", "token lists fed to the k-way merge are sorted by both producers", 2)
 	c.Rule("R6", "the token→instance map shared between a ring and its subrings is immutable (shared with C13.R7)", 1)
 	c.Rule("R7", "no selection loop over tokens starts from the extreme value of the domain as 'nothing selected'", 1)
+	c.Rule("R8", "the partition lookup the ranges are measured against returns the id at the position whose active flag it tested (shared with C15.R6)", 2)
 	c.Rule("R2", "a pending range bound recorded with its flag is consumed on every path to a successful return", 2)
 	pkg := c.Prog.Pkg("ring")
 	if pkg == nil {
@@ -72,6 +73,7 @@ func runC14(c *core.Ctx) {
 	c14SortedInputs(c, pkg)
 	c13ImmutableIndex(c, pkg, "R6")
 	c14Extremum(c, pkg)
+	c15LookupAs(c, pkg, "R8", false)
 }
 
 // c14Extremum (R7): a selection loop over 32-bit tokens/keys must not use the largest (or smallest)
